@@ -276,3 +276,8 @@ CONTRACTS = [
     Contract('cascade_default_and_on_delete_clause', ['pony.orm.core:Attribute.linked', 'pony.orm.core:Database.generate_mapping'], _od_configs, _od_case,
              [('default_and_on_delete_follow_the_rule', _od_spec)], level='bounded', bound='2 shapes x 3 options x required/optional x declared on the root entity / on a subclass'),
 ]
+
+from contracts import c13 as _c13
+# a refused / failed modification must leave the session as it was - identity map, key indexes, save queue and statuses included (contracted under C13 and shared here:
+# a refused cascading delete that loses an index entry yields a second object for one key (C11) and a delete that cannot be retried (C15))
+CONTRACTS += [c for c in _c13.CONTRACTS if c.id == 'handlers_with_fault_injection']
